@@ -170,6 +170,29 @@ pub fn scenarios() -> Vec<Scenario> {
             inputs: vec![".", "top.txt", "sub/../top.txt.txtpp", "."],
             recursive: true,
         },
+        Scenario { name: "run_invalid_utf8", files: vec![("a.txt.txtpp", s("-TXTPP#run printf 'a\\377b\\n'\nend\n"))], inputs: vec!["."], recursive: false },
+        Scenario {
+            name: "self_cycle_with_chain",
+            files: vec![
+                ("a.txt.txtpp", s("-TXTPP#include a.txt\n")),
+                ("x.txt.txtpp", s("-TXTPP#include y.txt\nx\n")),
+                ("y.txt.txtpp", s("-TXTPP#include z.txt\ny\n")),
+                ("z.txt.txtpp", s("-TXTPP#run sleep 0.3; echo z\n")),
+            ],
+            inputs: vec!["."],
+            recursive: false,
+        },
+        Scenario {
+            name: "timed_partial_deps",
+            files: vec![
+                ("a.txt.txtpp", s("-TXTPP#run sleep 0.3\nTXTPP#include b.txt\nTXTPP#include c.txt\n")),
+                ("b.txt.txtpp", s("-TXTPP#run sleep 1.2; printf 'fresh-b \\303\\251\\n'\n")),
+                ("c.txt.txtpp", s("c-line\n")),
+                ("d.txt.txtpp", s("TXTPP#include a.txt\n")),
+            ],
+            inputs: vec!["."],
+            recursive: false,
+        },
         Scenario { name: "missing_target", files: vec![("a.txt.txtpp", s("a\n"))], inputs: vec!["nothere.txt"], recursive: false },
     ]
 }
@@ -623,7 +646,9 @@ fn scenario_props(name: &str) -> &'static [&'static str] {
         "directive_at_eof" | "include_at_eof_with_newline" | "include_then_silent" | "only_silent" => &["C13"],
         "chain" => &["C02", "C11"],
         "diamond_after" => &["C02", "C03"],
-        "self_cycle" | "two_cycle_with_bystanders" => &["C05"],
+        "self_cycle" | "two_cycle_with_bystanders" | "self_cycle_with_chain" => &["C05"],
+        "timed_partial_deps" => &["C02"],
+        "run_invalid_utf8" => &["C17"],
         "missing_include" => &["C04"],
         "failing_command" => &["C04", "C17"],
         "names_and_decoys" => &["C11", "C10"],
@@ -669,6 +694,48 @@ fn run_real(c: Config) -> Result<bool, String> {
 
 type Tree = BTreeMap<PathBuf, Vec<u8>>;
 
+/// which properties a difference between the expected and the actual tree speaks about, beyond the phase's own:
+/// a non-generated path that changed or vanished, or a path that should not exist -> C10 (and C11 for a stray path);
+/// a generated file differing only in line endings -> C12, only in its final line ending -> C13, otherwise -> C01
+fn diff_props(exp: &Tree, got: &Tree, initial: &Tree, conforming_base: bool) -> Vec<&'static str> {
+    let mut v = vec![];
+    for (p, b) in exp {
+        match got.get(p) {
+            Some(g) if g == b => {}
+            g => {
+                if initial.contains_key(p) {
+                    v.push("C10");
+                } else if conforming_base {
+                    match g {
+                        None => v.push("C01"),
+                        Some(g) => {
+                            let norm = |x: &[u8]| String::from_utf8_lossy(x).replace("\r\n", "\n");
+                            let strip = |x: &[u8]| {
+                                let t = String::from_utf8_lossy(x).to_string();
+                                t.strip_suffix("\r\n").or(t.strip_suffix('\n')).map(|r| r.to_string()).unwrap_or(t)
+                            };
+                            if norm(g) == norm(b) {
+                                v.push("C12");
+                            } else if strip(g) == strip(b) {
+                                v.push("C13");
+                            } else {
+                                v.push("C01");
+                            }
+                        }
+                    }
+                }
+            }
+        }
+    }
+    for p in got.keys() {
+        if !exp.contains_key(p) && p.file_name().map(|n| n != "count.log").unwrap_or(true) {
+            v.push("C10");
+            v.push("C11");
+        }
+    }
+    v
+}
+
 fn diff_trees(exp: &Tree, got: &Tree, ignore: &dyn Fn(&Path) -> bool) -> Option<String> {
     for (p, b) in exp {
         if ignore(p) {
@@ -690,7 +757,8 @@ fn diff_trees(exp: &Tree, got: &Tree, ignore: &dyn Fn(&Path) -> bool) -> Option<
 
 pub fn run_all(work: &Path) -> SysReport {
     let scs = scenarios();
-    let jobs: Vec<(usize, bool)> = (0..scs.len()).flat_map(|i| [(i, true), (i, false)]).collect();
+    let mut jobs: Vec<(usize, bool)> = (0..scs.len()).flat_map(|i| [(i, true), (i, false)]).collect();
+    jobs.sort_by_key(|(i, _)| !scs[*i].name.starts_with("timed_")); // the slow ones first
     let next = std::sync::atomic::AtomicUsize::new(0);
     let total = std::sync::Mutex::new(SysReport { expected_err: vec![], checked: 0, failures: vec![] });
     std::thread::scope(|sp| {
@@ -710,8 +778,49 @@ pub fn run_all(work: &Path) -> SysReport {
         }
     });
     let mut t = total.into_inner().unwrap();
+    late_activity_check(work, &mut t);
     t.failures.truncate(60);
     t
+}
+
+pub static PANICS: std::sync::atomic::AtomicUsize = std::sync::atomic::AtomicUsize::new(0);
+
+/// after Txtpp::run has returned (here: with an error while other workers are still busy) nothing of txtpp may still be
+/// running: no thread panics later, and the tree does not change any more.  Run serially (process-wide panic counter).
+fn late_activity_check(work: &Path, rep: &mut SysReport) {
+    let sc = Scenario {
+        name: "error_while_others_busy",
+        files: vec![
+            ("bad.txt.txtpp", s("-TXTPP#include nope.txt\n")),
+            ("s1.txt.txtpp", s("-TXTPP#run sleep 0.6; echo done\n")),
+            ("s2.txt.txtpp", s("-TXTPP#run sleep 0.6; echo done\n")),
+            ("s3.txt.txtpp", s("-TXTPP#run sleep 0.6; echo done\n")),
+        ],
+        inputs: vec!["."],
+        recursive: false,
+    };
+    let root = work.join("late");
+    for (mode, threads) in [(Mode::Build, 4usize), (Mode::InMemoryBuild, 8)] {
+        rep.checked += 1;
+        materialize(&root, &sc);
+        let before = PANICS.load(std::sync::atomic::Ordering::SeqCst);
+        let r = run_real(cfg(&root, &sc, mode.clone(), threads, true));
+        let at_return = snapshot(&root);
+        std::thread::sleep(std::time::Duration::from_millis(1500));
+        let later = snapshot(&root);
+        let after = PANICS.load(std::sync::atomic::Ordering::SeqCst);
+        let phase = format!("{:?} threads={} returns, then 1.5 s of observation", mode, threads);
+        if r != Ok(false) {
+            rep.fail(&sc, &phase, format!("{r:?} but one source includes a missing file"), &["C04"]);
+        }
+        if after != before {
+            rep.fail(&sc, &phase, format!("{} thread panic(s) during or after the run", after - before), &["C18"]);
+        }
+        if let Some(d) = diff_trees(&at_return, &later, &|_| false) {
+            rep.fail(&sc, &phase, format!("txtpp kept changing the tree after Txtpp::run had returned: {d}"), &["C18", "C03"]);
+        }
+    }
+    let _ = fs::remove_dir_all(&root);
 }
 
 const ALL_PRESTATES: [&str; 5] = ["absent", "garbage_non_utf8", "longer_tail", "other_line_ending", "prefix"];
@@ -773,9 +882,8 @@ fn run_one(work: &Path, sc: &Scenario, tn: bool) -> SysReport {
                     if !tn {
                         p.push("C13");
                     }
-                    if d.starts_with("unexpected file") || d.starts_with("missing file") {
-                        p.push("C10");
-                        p.push("C11");
+                    for x in diff_props(&exp.tree, &base_tree, &initial, false) {
+                        p.push(x);
                     }
                     rep.fail(sc, &base_phase, d, &p);
                 }
@@ -796,6 +904,7 @@ fn run_one(work: &Path, sc: &Scenario, tn: bool) -> SysReport {
         }
     }
     let base_ok = base == Ok(true);
+    let base_conforms = exp.ok && base_ok && diff_trees(&exp.tree, &base_tree, &never).is_none();
     // generated paths as the REAL build made them (the metamorphic phases compare real runs with real runs)
     let real_generated: BTreeSet<PathBuf> = base_tree.keys().filter(|p| !initial.contains_key(*p) && !is_log(p)).cloned().collect();
 
@@ -803,7 +912,8 @@ fn run_one(work: &Path, sc: &Scenario, tn: bool) -> SysReport {
     for mode in [Mode::Build, Mode::InMemoryBuild] {
         for pname in ALL_PRESTATES {
             for threads in [1usize, 4] {
-                if threads == 4 && pname != "absent" {
+                let timed = sc.name.starts_with("timed_");
+                if (threads == 4 && pname != "absent" && !timed) || (threads == 1 && pname != "absent" && timed) {
                     continue;
                 }
                 if matches!(mode, Mode::Build) && pname == "absent" && threads == 1 {
@@ -831,7 +941,9 @@ fn run_one(work: &Path, sc: &Scenario, tn: bool) -> SysReport {
                 }
                 if threads != 1 {
                     p.push("C02");
-                    p.push("C03");
+                    if pname == "absent" {
+                        p.push("C03");
+                    }
                 }
                 match run_real(cfg(&root, sc, mode.clone(), threads, tn)) {
                     Err(e) => {
@@ -841,9 +953,16 @@ fn run_one(work: &Path, sc: &Scenario, tn: bool) -> SysReport {
                     }
                     Ok(v) => {
                         if Ok(v) != base {
+                            if base_conforms {
+                                p.push("C01");
+                            }
                             rep.fail(sc, &phase, format!("verdict ok={} but the base build gave {:?}", v, base), &p);
                         } else if v {
-                            if let Some(d) = diff_trees(&base_tree, &snapshot(&root), &never) {
+                            let now = snapshot(&root);
+                            if let Some(d) = diff_trees(&base_tree, &now, &never) {
+                                for x in diff_props(&base_tree, &now, &initial, base_conforms) {
+                                    p.push(x);
+                                }
                                 rep.fail(sc, &phase, d, &p);
                             }
                         }
@@ -852,7 +971,7 @@ fn run_one(work: &Path, sc: &Scenario, tn: bool) -> SysReport {
             }
         }
     }
-    if !base_ok {
+    if !base_ok || sc.name.starts_with("timed_") {
         return clean_without_build(rep, &root, sc, tn);
     }
     // ---- phase B: verify on the tree the real build made; tampering
